@@ -6,7 +6,7 @@ CONSTANTS
   DEV <- GenDev
   WithSnap = TRUE
   SelfCopy = FALSE
-  Depth = 40
+  Depth = 60
 ACTION_CONSTRAINT Bias
 INVARIANT Emit
 CHECK_DEADLOCK FALSE
